@@ -23,12 +23,12 @@ MANIFEST_ENTRY = {
             "the subrange rule and decoding have an answer (value or failure) for every input of every size; the recursion of the "
             "statement / expression parser model needs at most three units of fuel per token on every well-formed statement list, "
             "whatever its size and nesting (the termination argument of the recursive-descent parser on the modelled sub-language; "
-            "the model agrees with parse_program on accept / reject for token-level mutants, see C01). NOT provable in this "
+            "the model agrees with parse_program on accept / reject for token-level mutants, see C01). Also proved: a bracket-free chain of n operators of one level is read by the parser model as a tree n+1 deep (C04_operator_chain_is_deep) -- what the bound on nesting does not bound, and the cause of the recorded finding operator-chain-stack-overflow. NOT provable in this "
             "family and therefore observed only: the wall-clock budget, native stack depth and process aborts. Those are tested by "
             "running tokenize, parse, analyze and render on arbitrary bytes, all single and paired token kinds, token soups, "
-            "token-level mutants of valid programs, extreme literals and nesting to depth 12 under catch_unwind with a watchdog.",
+            "token-level mutants of valid programs, extreme literals, flat chains of operators / selectors / statements / branches, and nesting to depth 12 under catch_unwind with a watchdog.",
     "note": "partial by nature: panics from arithmetic overflow, slicing or third-party crates are not inventoried syntactically and "
-            "are caught only by the search (debug build has overflow checks; release is run at the thorough tier). Trusted: Coq "
+            "are caught only by the search (debug build has overflow checks; release is run at the thorough tier). Known finding: a single expression or variable with thousands of operators / selectors in a row overflows the native stack (operator-chain-stack-overflow). Trusted: Coq "
             "kernel, translator (panic-site scan), harness watchdog. No axioms.",
 }
 TRUSTED = [
@@ -41,6 +41,7 @@ ASSUMPTIONS = ["time budget per input: 5 s on this machine (observed, not proved
                "overflow / slice / third-party panics are outside the syntactic inventory and covered by testing only"]
 
 BUDGET_S = 5.0
+KNOWN_CHAIN = "operator-chain-stack-overflow"
 
 
 def mutate(rng, toks):
@@ -172,6 +173,38 @@ def gen_inputs(run):
             out.append(("long-token", ("PROGRAM p\nVAR s : STRING; END_VAR\n(* %s\nEND_PROGRAM\n" % body).encode()))
             out.append(("long-token", ("PROGRAM p\nVAR s : STRING; END_VAR\ns := CONCAT(s '%s'\n);\nEND_PROGRAM\n" % body).encode()))
             out.append(("long-token", ("PROGRAM p\nVAR %s : INT; END_VAR\nEND_PROGRAM\n" % body).encode()))
+    # every containment graph on three function blocks (who holds an instance of whom, self-references included; 512 graphs): the
+    # declaration sort and whatever walks a cycle to describe it must end on each of them (seed C04l: a walk along first edges
+    # that never comes back to its start when two cycles share a declaration)
+    for mask in range(512):
+        unit = []
+        for i in range(3):
+            held = [j for j in range(3) if mask >> (3 * i + j) & 1]
+            unit.append("FUNCTION_BLOCK N%d\nVAR\n%s  k : INT;\nEND_VAR\nEND_FUNCTION_BLOCK\n" % (i, "".join("  v%d : N%d;\n" % (j, j) for j in held)))
+        out.append(("containment-graph", "".join(unit).encode()))
+    # flat chains: ONE expression or variable with many operators / selectors and no bracket at all.  The tree is as deep as
+    # the chain is long (C04_operator_chain_is_deep), and the folds and visitors descend it.  Up to 256 links must be answered;
+    # beyond that the recorded finding operator-chain-stack-overflow applies (abnormal end by stack overflow only).
+    def unit_of(body):
+        return ("FUNCTION_BLOCK f\nVAR a : INT; r : Rec; q : ARRAY [1..2] OF INT; b : BOOL; END_VAR\n%s\nEND_FUNCTION_BLOCK\n" % body).encode()
+    chains = {"plus": lambda n: "a := " + "+".join(["a"] * (n + 1)) + ";",
+              "minus-star": lambda n: "a := a" + "".join((" - a", " * a")[i % 2] for i in range(n)) + ";",
+              "and": lambda n: "b := " + " AND ".join(["b"] * (n + 1)) + ";",
+              "compare-or": lambda n: "b := " + " OR ".join(["a < a"] * (n // 2 + 1)) + ";",
+              "field": lambda n: "a := r" + ".x" * n + ";",
+              "index": lambda n: "a := q" + "[1]" * n + ";"}
+    for name, mk in chains.items():
+        for n in (12, 100, 256):
+            out.append(("chain-short", unit_of(mk(n))))
+        for n in (5000, 12000):
+            b = unit_of(mk(n))
+            if len(b) <= 65536:
+                out.append(("chain-long", b))
+    # long but not deep: unary operators, statement lists, ELSIF branches (lists, or nested by construction elsewhere)
+    for n in (256, 5000):
+        out.append(("flat-long", unit_of("b := " + "NOT " * n + "b;")))
+        out.append(("flat-long", unit_of("a := 1;" * n)))
+        out.append(("flat-long", unit_of("IF b THEN a := 1; " + "ELSIF b THEN a := 1; " * n + "END_IF;")))
     for depth in range(1, 13):
         e = "(" * depth + "1" + ")" * depth
         out.append(("nesting", ("PROGRAM p\nVAR x : INT; END_VAR\nx := %s;\nEND_PROGRAM\n" % e).encode()))
@@ -200,6 +233,12 @@ def search(run, info):
             if "panic" in r:
                 run.violation("impl-violates-property", "panic in the %s build on a %s input (%d bytes): %s" % (bname, tag, len(b), r["panic"][:200]),
                               {"input": {"bytes_hex": b.hex(), "text": b.decode("utf-8", "replace")[:400]}, "build": bname})
+            elif "abort" in r and tag == "chain-long" and r["abort"] != "timeout":
+                # judged on the class of the input (one bracket-free chain of more than 256 operators / selectors) and on the way
+                # it fails (the process ends abnormally; a panic or a timeout there is still a violation)
+                run.known_finding(KNOWN_CHAIN, "a single expression or variable with thousands of operators / selectors in a row and no "
+                                  "brackets (%d bytes here) ends the process abnormally (stack overflow in the recursive folds and "
+                                  "visitors; the %s build)" % (len(b), bname))
             elif "abort" in r:
                 run.violation("impl-violates-property", "the %s build %s on a %s input (%d bytes)" % (
                     bname, "ran beyond the time budget" if r["abort"] == "timeout" else "ended abnormally (%s)" % r["abort"], tag, len(b)),
